@@ -156,4 +156,44 @@ PROPS = {
         "required_targets": {"any": ['timeouts_observed', 'live_runs_to_horizon', 'pending_ops_checked']},
         "assumptions": COMMON_ASSUMPTIONS + SIM_ASSUMPTIONS + ["all time is virtual (tokio paused clock; the TimestampProvider reads tokio's clock); timestamps are exact", "builder order is the client's (interval, then timeout); the reverse order is a recorded probe without verdict", "'never times out' is checked up to a horizon of 2000 intervals"],
     },
+    "C10": {
+        "level": "fault_enumeration",
+        "jobs": {
+            "quick": [job("sim", "mux", "verif", "c10", 8)],
+            "thorough": [job("sim", "mux", "verif", "c10", 16)],
+        },
+        "required_targets": {"any": ["enumerated_sequences", "random_sequences", "garbage_runs", "overrun_runs"]},
+        "assumptions": COMMON_ASSUMPTIONS + SIM_ASSUMPTIONS + [
+            "the peer is a scripted raw peer speaking frames built by the reference codec; only what the statement and PROTOCOL.md fix is asserted (appendix A.4), every other reply of the endpoint is recorded and unconstrained",
+            "exact per-step reply counts are asserted in stepwise mode (a quiescent point after every offending frame) against a small model of which named ids are in use; in burst mode only state-independent rules apply",
+        ],
+    },
+    "C12": {
+        "level": "exploration",
+        "jobs": {
+            "quick": [job("micro", "mux", "verif", "c12", 8)],
+            "thorough": [job("micro", "mux", "verif", "c12", 16),
+                         job("miri", "mux", "miri", "c12", 16, extra=["--miri", "1"], timeout=3000, miriflags="-Zmiri-seed={shard}")],
+        },
+        "required_targets": {"any": ["ack_inside_check_then_register_window", "close_inside_check_then_register_window"]},
+        "assumptions": COMMON_ASSUMPTIONS + [
+            "MICRO engine: real OS threads; the observer hook blocks each thread at each hook event until a turn-taking scheduler releases it; an execution is a total order of hook events (granularity = hook points, not individual atomic operations)",
+            "'two writer polls' = two polls of the same writer (one waker slot, AsyncWrite needs &mut self); two independent waiters on one stream are outside the API contract",
+            "C11 memory-model behaviours beyond what x86 and Miri's store-buffer emulation produce are not covered",
+            "standalone_stream builds the MuxStream/EstablishedStreamData pair exactly as the connection task does; acknowledge/disallow_write are the task's own methods",
+        ],
+    },
+    "C13": {
+        "level": "exploration",
+        "jobs": {
+            "quick": [job("sim", "mux", "verif", "c13", 8)],
+            "thorough": [job("sim", "mux", "verif", "c13", 16)],
+        },
+        "required_targets": {"any": ["bytes_bridged_runs", "errors_injected", "bridges_completed_ok"]},
+        "assumptions": COMMON_ASSUMPTIONS + SIM_ASSUMPTIONS + [
+            "the local side is a scripted AsyncBufRead + AsyncWrite; an injected read error is one-shot and followed by EOF, as sockets behave",
+            "'promptly' = the bridge future has resolved by the second quiescent point after the error was returned to it",
+            "a bridge whose local reader is idle forever, or whose far application never reads, legitimately stays pending; only the half-close and data oracles apply then",
+        ],
+    },
 }
